@@ -1,0 +1,7 @@
+//go:build !verif
+// +build !verif
+
+package graph
+
+// verifStep is a verification hook: a no-op unless built with the "verif" tag.
+func verifStep() {}
